@@ -479,11 +479,67 @@ def treap_ctl(seed, runs, tag):
     return summ, bs
 
 
+PLAIN_BLOCKS = {"C03": {"quick": 1024, "thorough": 8192}, "C16": {"quick": 512, "thorough": 4096}}
+
+
+def plain_ctl(prop, tier, seed):
+    """The controlled histories once more, against rlib_treap AS SHIPPED (cargo feature `verif` off:
+    code under cfg(not(feature = "verif")) and the unhooked gen_priority are what runs).  Without
+    the hook the library's own generator answers the draws; one block of 64 histories per fresh
+    process (first node-creating thread, seed 42) keeps every block a repeatable value.  Returns
+    (summary, found, build seconds)."""
+    from concurrent.futures import ThreadPoolExecutor
+
+    binary, bs = cargo_build("treapsim_plain", "sim-dbg")
+    blocks = PLAIN_BLOCKS[prop][tier]
+    pseed = seed ^ 0x9A1
+    t0 = time.time()
+
+    def one(k):
+        try:
+            rc, so, se = run([binary, "ctlblock", "--seed", str(pseed), "--block", str(k)], timeout=300)
+        except subprocess.TimeoutExpired:
+            return {"crash": "timeout", "block": k}
+        if rc != 0:
+            return {"crash": "status %s: %s" % (rc, se[-200:]), "block": k}
+        try:
+            return json.loads(so)
+        except ValueError:
+            return {"crash": "unparsable output", "block": k}
+
+    with ThreadPoolExecutor(max_workers=workers()) as ex:
+        res = list(ex.map(one, range(blocks)))
+    found, seen = [], set()
+    steps = walks = runs = 0
+    for r in res:
+        if "crash" in r:
+            cls, detail, frm, to, vprop = "treap/crash/plain/", "hook-free block %d terminated abnormally: %s" % (r["block"], r["crash"]), r["block"] * 64, r["block"] * 64 + 63, prop
+            vs = [{"class": cls, "detail": detail, "run_index": to, "property": vprop}]
+        else:
+            steps += r["steps"]
+            walks += r["invariant_walks"]
+            runs += r["runs"]
+            vs = r["violations"]
+        for v in vs:
+            if v["property"] != prop or v["class"] in seen:
+                continue
+            seen.add(v["class"])
+            frm = (v["run_index"] // 64) * 64
+            path = os.path.join(REPLAYS, "%s-plain-%d-%d.json" % (prop, seed, v["run_index"]))
+            with open(path, "w") as f:
+                json.dump({"property": prop, "violation": {"class": v["class"], "detail": v["detail"]}, "note": "hook-free build (rlib_treap as shipped): replayed as the block prefix in a fresh process", "record": {"engine": "treapsim", "plain": True, "by_index_block": {"seed": pseed, "from": frm, "to": v["run_index"]}}}, f, indent=1)
+            found.append({"class": v["class"], "detail": v["detail"] + " [hook-free build]", "replay": path})
+    summ = {"what": "the same history generator against rlib_treap built as shipped (no `verif` feature, no hook: priorities from the library's own generator, ManualInsert priorities still chosen); one block of 64 histories per fresh process", "blocks": blocks, "histories": runs, "steps": steps, "invariant_walks": walks, "wall_s": round(time.time() - t0, 2)}
+    return summ, found, bs
+
+
 def treap_replay(path):
     rec = json.load(open(path))
     engine = (rec.get("record") or rec).get("engine", "")
     profile = "sim-rel" if engine == "treapsim-real" else "sim-dbg"
-    binary, _ = cargo_build("treapsim", profile)
+    # real-priority runs and hook-free blocks run against the library as shipped (no `verif` feature)
+    plain = engine == "treapsim-real" or bool((rec.get("record") or {}).get("plain"))
+    binary, _ = cargo_build("treapsim_plain" if plain else "treapsim", profile)
     env = (rec.get("record") or {}).get("env")
     if env and env.get("LD_PRELOAD"):
         clock_shim()
@@ -527,7 +583,10 @@ def check_c03(tier, seed):
     # exact vector replay; only the functional verdicts count for C03 here
     from concurrent.futures import ThreadPoolExecutor
 
-    rbin, bs2 = cargo_build("treapsim", "sim-rel")
+    plain_summ, plain_found, bs3 = plain_ctl("C03", tier, seed)
+    build_s += bs3
+    mine.extend(plain_found)
+    rbin, bs2 = cargo_build("treapsim_plain", "sim-rel")
     build_s += bs2
     rng = PyRng(seed ^ 0x3C03)
     big_cfgs = []
@@ -561,6 +620,7 @@ def check_c03(tier, seed):
     real = settle("C03", mine, treap_replay)
     wall = time.time() - t0
     cov = ctl_coverage(c)
+    cov["hook_free_layer"] = plain_summ
     cov["big_tree_layer"] = {
         "what": "real-priority histories (all %d kinds) at n = 20000 and n = %d%s; final in-order sequence compared with a closed form or an exact vector replay of the logged operations, sizes and removed elements checked" % (N_HISTORIES, 100_000 if tier == "quick" else 300_000, " plus six at n = 10^6" if tier == "thorough" else ""),
         "process_runs": len(big),
@@ -749,8 +809,11 @@ def check_c16(tier, seed):
             except OSError:
                 pass
 
-    binary, bs2 = cargo_build("treapsim", "sim-rel")
+    binary, bs2 = cargo_build("treapsim_plain", "sim-rel")
     build_s += bs2
+    plain_summ, plain_found, bs3 = plain_ctl("C16", tier, seed)
+    build_s += bs3
+    found.extend(plain_found)
     cfgs = real_matrix(seed, real_count, big)
     knobs = environment_knobs()
     for name in knobs[:8]:
@@ -813,6 +876,7 @@ def check_c16(tier, seed):
             "(direction-agnostic) after every step under ties/spines. distinct_nontrivial = distinct final-tree digests of layer 1 + distinct (shape, pending-set) states of layer 2."
         ),
         "real_priority_process_runs": len(results),
+        "hook_free_layer": plain_summ,
         "clock_seam": {"what": "cross-thread histories also run with CLOCK_REALTIME / gettimeofday / time answered by an LD_PRELOAD shim (sim/clockshim): frozen, coarse (10 ms every 4096 readings), and (thorough) jumping one hour back", "runs": clock_runs, "available": bool(shim)},
         "environment_knobs": {"what": "environment variables read by rlib_treap / rlib_rand through std::env::var with a literal name (static scan of the working tree); for each, cross-thread and plain histories are also run with the variable set to 1, 42, 0 and true", "found": knobs},
         "real_priority_distinct_configurations": len(config_keys),
@@ -1296,6 +1360,7 @@ def cmd_setup():
     for profile in ("sim-rel", "sim-dbg"):
         cargo_build("iosim", profile)
         cargo_build("treapsim", profile)
+        cargo_build("treapsim_plain", profile)
     cargo_build("mirisched", "sim-rel")
     if clock_shim() is None:
         log("setup: no C compiler - the clock seam of C16 will be skipped")
